@@ -68,6 +68,32 @@ pub fn alloc_grid<const V: u32>(d: &mut Driver<V>, p: &Params, pass: u64) {
             }
         }
     }
+    // Size-class boundaries (segregated free lists: 8 one-word steps, then four steps per power of
+    // two): a request of exactly a cell size, and one word less, for the Default semantics. Two
+    // objects of each size are allocated back to back and filled, so a cell shorter than the
+    // request shows as an overlap.
+    if pass == 0 && p.sems.contains(&0) {
+        let mut words: Vec<usize> = (4..=8).collect();
+        let mut base = 8usize;
+        while base < 8192 {
+            for j in 1..=4 {
+                words.push(base + base * j / 4);
+            }
+            base *= 2;
+        }
+        for w in words {
+            for size in [w * 8 - 8, w * 8] {
+                if size < 32 || size >= d.max_non_los {
+                    continue;
+                }
+                for _ in 0..2 {
+                    safepoint();
+                    d.new_object(0, (n % 4) as usize, 0, size, 1, 8, 0, KIND_PLAIN);
+                    n += 1;
+                }
+            }
+        }
+    }
     ev(Obj::new("GridEnd").int("pass", pass as i64).int("calls", n as i64));
 }
 
